@@ -137,6 +137,33 @@ def rule_grid(rep, sm):
            "table fill covers p in 0..npoints, n in 0..factor with y[factor·p + n] (ranges %s, index %s)" % (rg, sm["fill"]["yidx"]), loc(fn))
 
 
+def rule_sinc_fn(rep):
+    facts = rep.ctx.facts
+    R = "R-C01-grid"
+    fn = facts.need_free_fn("sinc", "sinc")
+    v = fn["params"][0]["name"]
+    st = fn["body"]["stmts"]
+    e = st[0]["e"] if len(st) == 1 and st[0]["k"] == "expr" else None
+    ok = False
+    detail = show(fn["body"])[:120]
+    if e is not None and e.get("k") == "if" and e.get("else"):
+        alg = Alg(TypeEnv(locals_={v: "T"}))
+        x = alg.sym(v)
+        c = e["c"]
+        zero_test = c.get("k") == "bin" and c["op"] == "==" and {nbit(c["l"]), nbit(c["r"])} == {v, "T::zero()"}
+        tv = e["then"]["stmts"][-1]["e"]
+        ev = e["else"]["stmts"][-1]["e"]
+        try:
+            one = alg.conv(tv)
+            val = alg.conv(ev)
+            sins = [f for f in val.atoms(sp.Function) if f.func.__name__ == "m_sin"]
+            ok = zero_test and one == 1 and len(sins) == 1 and sp.simplify(sins[0].args[0] - x * sp.pi) == 0 and sp.simplify(val - sins[0] / (x * sp.pi)) == 0
+            detail = "sinc(x) = %s for x != 0, %s at 0" % (val, one)
+        except Exception as ex:
+            detail = "cannot interpret: %s" % ex
+    rep.ob(R, "sinc::sinc", ok, "sinc(x) must be sin(pi·x)/(pi·x) with sinc(0) = 1 (%s)" % detail, loc(fn))
+
+
 def rule_siblings(rep):
     facts = rep.ctx.facts
     R = "R-C01-siblings"
@@ -206,6 +233,12 @@ def rule_cutoff(rep, R, direction):
         rep.ob(R, "make_interpolator/sinc-len-rounded-up", ok8, "sinc_len is rounded *up* to a multiple of 8 (%s)" % show(sinc_len), loc(fn))
 
 
+def strip_mut_ref(e):
+    while isinstance(e, dict) and e.get("k") == "ref":
+        e = e["e"]
+    return e
+
+
 def rule_ola(rep):
     facts = rep.ctx.facts
     R = "R-C01-ola"
@@ -250,6 +283,18 @@ def rule_ola(rep):
             except Exception:
                 pass
     rep.ob(R, "FftResampler::new/scale", ok, "filter taps scaled by 1/(2·fft_size_in) (realfft's transforms are unnormalised: forward length 2·fft_size_in)", loc(cfn))
+    # the filter spectrum is the forward transform of the (zero padded) scaled taps
+    ft = [x for x in walk(cfn["body"]) if x.get("k") == "mcall" and x["name"] == "process" and x["recv"].get("k") == "path"]
+    planned = {}
+    for s_ in cfn["body"]["stmts"]:
+        if s_["k"] == "let" and s_["pat"]["k"] == "pident" and s_.get("init") is not None and s_["init"].get("k") == "mcall" and s_["init"]["name"] in ("plan_fft_forward", "plan_fft_inverse"):
+            planned[s_["pat"]["name"]] = s_["init"]["name"]
+    from common import find_struct_literal
+    lit = find_struct_literal(cfn["body"], "FftResampler")
+    raw = {f[0]: f[1] for f in lit["fields"]} if lit else {}
+    okf = len(ft) == 1 and planned.get(ft[0]["recv"]["p"]) == "plan_fft_forward" and len(ft[0]["args"]) == 2 and raw.get("filter_f") is not None \
+        and nbit(raw["filter_f"]) == nbit(strip_mut_ref(ft[0]["args"][1]))
+    rep.ob(R, "FftResampler::new/filter-spectrum", okf, "filter_f must be the forward transform of the padded taps: %s" % [show(x)[:70] for x in ft], loc(cfn))
     tot = a["total"]
     ok = sp.simplify(tot["input_buf"] - 2 * FI) == 0 and sp.simplify(tot["output_buf"] - 2 * FO) == 0 and sp.simplify(tot["input_f"] - (FI + 1)) == 0 and sp.simplify(tot["output_f"] - (FO + 1)) == 0
     rep.ob(R, "FftResampler::new/lengths", ok, "buffers: time 2·N (zero padded), spectra N+1 (got %s)" % {k: str(v) for k, v in tot.items() if not str(v).startswith("len_")}, loc(cfn))
@@ -264,6 +309,7 @@ def run(rep):
     rep.guarded("R-C01-poly", lambda r: holder.update(polys=rule_poly(r, "R-C01-poly", "asynchro_sinc", ["interp_cubic", "interp_quad", "interp_lin"])))
     rep.guarded("R-C01-nodes", lambda r: rule_nodes(r, holder.get("polys", {})))
     rep.guarded("R-C01-grid", lambda r: rule_grid(r, sincmodel.extract_make_sincs(facts)))
+    rep.guarded("R-C01-grid", rule_sinc_fn)
     rep.guarded("R-C01-siblings", rule_siblings)
     rep.guarded("R-C01-cutoff-lower", lambda r: rule_cutoff(r, "R-C01-cutoff-lower", "lower"))
     rep.guarded("R-C01-ola", rule_ola)
@@ -280,10 +326,10 @@ def run(rep):
         rep.guarded("R-C05-shift", carry)
     rep.floor("R-C01-poly", 1 + 9 + 6)
     rep.floor("R-C01-nodes", 4 + 8)
-    rep.floor("R-C01-grid", 6)
+    rep.floor("R-C01-grid", 7)
     rep.floor("R-C01-siblings", 4)
     rep.floor("R-C01-cutoff-lower", 2)
-    rep.floor("R-C01-ola", 7)
+    rep.floor("R-C01-ola", 8)
     rep.floor("R-C15-lanes", 55)
     rep.floor("R-C05-shift", 6)
     rep.floor("R-C05-rebase", 4)
